@@ -45,25 +45,45 @@ type c14Action struct {
 	keyToks []string
 }
 
-func (*c14Action) GetTypeID() uint8                        { return 7 }
-func (a *c14Action) Bytes() []byte                         { return append([]byte{7}, make([]byte, a.payload)...) }
-func (a *c14Action) ComputeUnits(chain.Rules) uint64       { return a.compute }
-func (*c14Action) ValidRange(chain.Rules) (int64, int64)   { return -1, -1 }
+func (*c14Action) GetTypeID() uint8                      { return 7 }
+func (a *c14Action) Bytes() []byte                       { return append([]byte{7}, make([]byte, a.payload)...) }
+func (a *c14Action) ComputeUnits(chain.Rules) uint64     { return a.compute }
+func (*c14Action) ValidRange(chain.Rules) (int64, int64) { return -1, -1 }
 func (*c14Action) Execute(context.Context, chain.Rules, state.Mutable, int64, codec.Address, ids.ID) ([]byte, error) {
 	return nil, nil
 }
 
-func (a *c14Action) StateKeys(_ codec.Address, actionID ids.ID) state.Keys {
+func (a *c14Action) StateKeys(actor codec.Address, actionID ids.ID) state.Keys {
 	ks := state.Keys{}
 	for _, k := range a.keyToks {
 		name, c, _ := strings.Cut(k, "/")
 		kb := []byte(name)
-		if strings.HasPrefix(name, "@") {
+		switch {
+		case strings.HasPrefix(name, "!"): // malformed key: one byte, no chunk suffix
+			ks[name[1:2]] = state.Read | state.Write
+			continue
+		case strings.HasPrefix(name, "@"): // derived from the action id
 			kb = append(kb, actionID[:]...)
+		case strings.HasPrefix(name, "%"): // derived from the actor
+			kb = append(kb, actor[:]...)
 		}
 		ks[string(keys.EncodeChunks(kb, uint16(verifh.U(c))))] = state.Read | state.Write
 	}
 	return ks
+}
+
+// c14RuleFactory returns `at` for exactly the timestamp the transaction is generated at and
+// different rules (zero costs, other chain id) for every other timestamp.
+type c14RuleFactory struct {
+	ts        int64
+	at, other *genesis.Rules
+}
+
+func (f *c14RuleFactory) GetRules(t int64) chain.Rules {
+	if t == f.ts {
+		return f.at
+	}
+	return f.other
 }
 
 func c14Factories() map[string]chain.AuthFactory {
@@ -108,7 +128,7 @@ func TestVerifC14(t *testing.T) {
 	}
 	for _, l := range lines {
 		f := verifh.Fields(l)
-		if len(f) < 6 || f[0] != "case" {
+		if len(f) < 6 || (f[0] != "case" && f[0] != "gen") {
 			r.Emit(l, "bad-op")
 			continue
 		}
@@ -138,6 +158,9 @@ func TestVerifC14(t *testing.T) {
 		rules.StorageKeyReadUnits, rules.StorageValueReadUnits = verifh.U(rs[1]), verifh.U(rs[2])
 		rules.StorageKeyAllocateUnits, rules.StorageValueAllocateUnits = verifh.U(rs[3]), verifh.U(rs[4])
 		rules.StorageKeyWriteUnits, rules.StorageValueWriteUnits = verifh.U(rs[5]), verifh.U(rs[6])
+		if w, ok := kv["win"]; ok {
+			rules.ValidityWindow = verifh.I(w)
+		}
 
 		actions := make([]chain.Action, 0, len(acts))
 		bad := false
@@ -151,7 +174,7 @@ func TestVerifC14(t *testing.T) {
 				NumComputeUnits: verifh.U(p[1]), SpecifiedStateKeys: []string{}, SpecifiedStateKeyPermissions: []state.Permissions{},
 				ReadKeys: [][]byte{}, WriteKeys: [][]byte{}, WriteValues: [][]byte{make([]byte, verifh.U(p[0]))}, Start: -1, End: -1,
 			}
-			if strings.Contains(p[2], "@") {
+			if strings.ContainsAny(p[2], "@%!") {
 				actions = append(actions, &c14Action{payload: int(verifh.U(p[0])), compute: verifh.U(p[1]), keyToks: strings.Split(p[2], "+")})
 				continue
 			}
@@ -168,14 +191,50 @@ func TestVerifC14(t *testing.T) {
 			r.Emit(l, "bad-op")
 			continue
 		}
-		base := chain.Base{Timestamp: verifh.I(kv["ts"]), ChainID: rules.ChainID, MaxFee: verifh.U(kv["fee"])}
-		txData := chain.NewTxData(base, actions)
-		tx, err := txData.Sign(fac)
-		if err != nil {
-			t.Fatal(err)
+		prices := fees.Dimensions{3, 1, 4, 1, 5}
+		if ps := strings.Split(kv["prices"], ","); len(ps) == 5 {
+			for i := range prices {
+				prices[i] = verifh.U(ps[i])
+			}
 		}
-		est, eerr := chain.EstimateUnits(rules, actions, fac)
-		units, uerr := tx.Units(bh, rules)
+		var (
+			tx         *chain.Transaction
+			err        error
+			est, units fees.Dimensions
+			eerr, uerr error
+			genErr     error
+		)
+		if f[0] == "gen" {
+			// the real GenerateTransaction: rules of `ts`, estimate, MaxFee := MulSum(prices, estimate), sign
+			other := genesis.NewDefaultRules()
+			other.BaseComputeUnits, other.StorageKeyReadUnits, other.StorageValueReadUnits = 0, 0, 0
+			other.StorageKeyAllocateUnits, other.StorageValueAllocateUnits = 0, 0
+			other.StorageKeyWriteUnits, other.StorageValueWriteUnits = 0, 0
+			other.ValidityWindow = 1
+			rf := &c14RuleFactory{ts: verifh.I(kv["ts"]), at: rules, other: other}
+			tx, genErr = chain.GenerateTransaction(rf, prices, rf.ts, actions, fac)
+			if genErr != nil {
+				// still give the model the derived values: take them from a reference tx signed
+				// by the same factory
+				refData := chain.NewTxData(chain.Base{Timestamp: 1000, ChainID: rules.ChainID, MaxFee: 1}, actions)
+				tx, err = refData.Sign(fac)
+				if err != nil {
+					t.Fatal(err)
+				}
+			}
+			if genErr == nil {
+				units, uerr = tx.Units(bh, rf.GetRules(rf.ts))
+			}
+		} else {
+			base := chain.Base{Timestamp: verifh.I(kv["ts"]), ChainID: rules.ChainID, MaxFee: verifh.U(kv["fee"])}
+			txData := chain.NewTxData(base, actions)
+			tx, err = txData.Sign(fac)
+			if err != nil {
+				t.Fatal(err)
+			}
+			est, eerr = chain.EstimateUnits(rules, actions, fac)
+			units, uerr = tx.Units(bh, rules)
+		}
 
 		// derived values for the model
 		bw, ac := fac.MaxUnits()
@@ -200,16 +259,42 @@ func TestVerifC14(t *testing.T) {
 		for _, w := range f {
 			k, _, _ := strings.Cut(w, "=")
 			switch k {
-			case "alen", "bw", "ac", "aac", "sp", "spk", "sz":
+			case "alen", "bw", "ac", "aac", "sp", "spk", "sz", "faddr", "actor":
 			default:
 				cons = append(cons, w)
 			}
 		}
-		op := fmt.Sprintf("%s alen=%d bw=%d ac=%d aac=%d sp=%s spk=%s sz=%s", strings.Join(cons, " "),
-			len(tx.Auth.Bytes()), bw, ac, tx.Auth.ComputeUnits(rules), dash(sp, ","), dash(spk, "+"), dash(sz, ","))
-		r.Emit(op, fmt.Sprintf("est=%s units=%s", dimsStr(est, eerr), dimsStr(units, uerr)))
+		faddr, actor := fac.Address(), tx.Auth.Actor()
+		op := fmt.Sprintf("%s alen=%d bw=%d ac=%d aac=%d sp=%s spk=%s sz=%s faddr=%x actor=%x", strings.Join(cons, " "),
+			len(tx.Auth.Bytes()), bw, ac, tx.Auth.ComputeUnits(rules), dash(sp, ","), dash(spk, "+"), dash(sz, ","), faddr[:], actor[:])
 		r.Count("auth:" + kv["auth"])
 		r.Count(fmt.Sprintf("actions:%d", len(actions)))
+		if faddr != actor {
+			r.Violation("factory-address-not-actor", "authFactory.Address() %x != signed auth's Actor() %x", faddr[:], actor[:])
+		}
+		if f[0] == "gen" && genErr != nil {
+			r.Emit(op, "err")
+			r.Count("gen-error")
+			continue
+		}
+		if f[0] == "gen" {
+			fee, ferr := fees.MulSum(prices, units)
+			feeS := "err"
+			if uerr == nil && ferr == nil {
+				feeS = strconv.FormatUint(fee, 10)
+			}
+			r.Emit(op, fmt.Sprintf("maxfee=%d units=%s fee=%s", tx.MaxFee(), dimsStr(units, uerr), feeS))
+			r.Distinct(op)
+			// oracle: a transaction generated at these prices can pay its fee at these prices
+			switch {
+			case uerr != nil:
+				r.Violation("units-error-after-estimate", "GenerateTransaction succeeded but Units fails: %v", uerr)
+			case ferr != nil || fee > tx.MaxFee():
+				r.Violation("generated-maxfee-below-fee", "fee %d (err %v) of units %v at prices %v > MaxFee %d of the generated tx", fee, ferr, units, prices, tx.MaxFee())
+			}
+			continue
+		}
+		r.Emit(op, fmt.Sprintf("est=%s units=%s", dimsStr(est, eerr), dimsStr(units, uerr)))
 
 		// oracle: the property itself
 		if eerr != nil {
@@ -241,8 +326,7 @@ func TestVerifC14(t *testing.T) {
 				r.Violation("storage-underestimate", "dimension %d: %d > %d", i, units[i], est[i])
 			}
 		}
-		// a transaction generated at these prices can pay its fee
-		prices := fees.Dimensions{3, 1, 4, 1, 5}
+		// at the (random) prices of the op line the fee is within the budget derived from the estimate
 		if maxFee, err := fees.MulSum(prices, est); err == nil {
 			if fee, err := fees.MulSum(prices, units); err != nil || fee > maxFee {
 				r.Violation("fee-above-budget", "fee %d > maxFee %d", fee, maxFee)
@@ -261,12 +345,29 @@ func c14Generate(r *verifh.Run) []string {
 		}
 		return verifh.Hex(id[:])
 	}
+	kind := "case"
+	pricesTok := func() string {
+		p := func() uint64 {
+			switch g.Intn(10) {
+			case 0:
+				return 0
+			case 1:
+				return g.Pick64() >> 16
+			case 2:
+				return uint64(1000 + g.Intn(1_000_000))
+			default:
+				return uint64(g.Intn(200))
+			}
+		}
+		return fmt.Sprintf("%d,%d,%d,%d,%d", p(), p(), p(), p(), p())
+	}
 	mk := func(authName string, ts int64, chain string, fee uint64, rules string, acts []string) string {
 		as := ""
 		if len(acts) > 0 {
 			as = " a=" + strings.Join(acts, " a=")
 		}
-		return fmt.Sprintf("case auth=%s ts=%d chain=%s fee=%d rules=%s%s", authName, ts, chain, fee, rules, as)
+		return fmt.Sprintf("%s auth=%s ts=%d chain=%s fee=%d rules=%s prices=%s win=%d%s", kind, authName, ts, chain, fee, rules,
+			pricesTok(), []int64{60000, 1000, 10_000_000}[g.Intn(3)], as)
 	}
 	rep := func(a string, n int) []string {
 		out := make([]string, n)
@@ -294,13 +395,31 @@ func c14Generate(r *verifh.Run) []string {
 			lines = append(lines, mk(an, 1_758_000_000_000, full, 1000, defRules, rep("10:1:@obj/1+shared/2", n)))
 		}
 	}
-	names := []string{"k0", "k1", "k2", "k3", "shared", "@obj", "@new"}
+	// the same shapes through the real GenerateTransaction (op `gen`)
+	kind = "gen"
+	for _, an := range []string{"ed", "secp", "bls"} {
+		for _, n := range []int{1, 2, 13, 16} {
+			lines = append(lines, mk(an, 1_758_000_000_123, full, 0, defRules, rep("10:1:@obj/3+%own/2", n)))
+			lines = append(lines, mk(an, 1_758_000_000_123, full, 0, defRules, rep("70:1:shared/2", n)))
+			lines = append(lines, mk(an, 1_758_000_000_123, full, 0, "1,1000,1000,1000,1000,1000,1000", rep("16326:3:@obj/65535", n)))
+		}
+	}
+	lines = append(lines, mk("ed", 1_758_000_000_123, full, 0, defRules, []string{"5:1:k0/1", "5:1:!x/0"})) // malformed key
+	kind = "case"
+	lines = append(lines, mk("ed", 1_758_000_000_123, full, 9, defRules, []string{"5:1:k0/1", "5:1:!x/0"}))
+	names := []string{"k0", "k1", "k2", "k3", "shared", "@obj", "@new", "%own"}
 	n := r.N(400, 20000)
 	for i := 0; i < n; i++ {
 		an := []string{"ed", "secp", "bls"}[g.Intn(3)]
+		kind = "case"
+		if g.Chance(45) {
+			kind = "gen"
+		}
 		na := 1 + g.Intn(16)
 		if g.Chance(5) {
 			na = 0
+		} else if g.Chance(5) {
+			na = 17 + g.Intn(24) // the two functions do not look at MaxActionsPerTx
 		}
 		acts := make([]string, na)
 		sizes := []int{0, 1, 68, 69, 70, 71, 200, 16325, 16326, 16327}
@@ -320,6 +439,9 @@ func c14Generate(r *verifh.Run) []string {
 					seen[key] = true
 					ks = append(ks, key)
 				}
+			}
+			if g.Chance(2) {
+				ks = append(ks, "!x/0") // malformed key (1 byte): ErrInvalidKeyValue on both sides
 			}
 			kss := "-"
 			if len(ks) > 0 {
@@ -342,7 +464,7 @@ func c14Generate(r *verifh.Run) []string {
 			rules = fmt.Sprintf("%d,%d,%d,%d,%d,%d,%d", u(), u(), u(), u(), u(), u(), u())
 		}
 		ts := int64(1_700_000_000_000 + g.Intn(100_000_000_000))
-		if g.Chance(10) {
+		if g.Chance(10) && kind == "case" {
 			ts = int64(g.Pick64())
 		}
 		lines = append(lines, mk(an, ts, chainHex(), g.Pick64(), rules, acts))
